@@ -51,6 +51,7 @@ pub const TARGETS: &[Target] = &[
     ("layoutloops", "LayoutLoops", layoutloops as Gen),
     ("layoutdecide", "LayoutDecide", layoutdecide as Gen),
     ("layoutlisteq", "LayoutListEq", layoutlisteq as Gen),
+    ("matchexaminee", "ValueMatchGen", matchexaminee as Gen),
 ];
 
 type R = Result<String, String>;
@@ -1445,4 +1446,116 @@ fn vtable_wiring(repo: &Path) -> R {
         lean_fields.join(", "),
         writes.join(", ")
     ))
+}
+
+
+// ───────────────────────── matchexaminee ─────────────────────────
+
+/// `matchexaminee` → `Generated/ValueMatchGen.lean`: how `Lowerer::match`
+/// (src/mir/lower/match_expr.rs) obtains the variable it reads the
+/// discriminant and — per candidate arm, after the guards of the earlier
+/// arms — the pattern bindings from: one `ExStep` per `let examinee = …;`
+/// statement of the function body, in order. Subset: `self.expr(<e>)`
+/// (`evalExpr`) and `self.assign_to_var(examinee, <ty>)` (`assignToVar`);
+/// anything else (a `match` on the value, a conditional copy, …) is an
+/// extraction failure. Also demanded: the discriminant is
+/// `Value::Discriminant(examinee…)`, every `self.match_case(…)` receives
+/// `examinee` as its first argument, and `match_case` extracts each binding
+/// as `Value::Clone(Place { var: examinee.clone(), …VariantField… })` of its
+/// first parameter.
+fn matchexaminee(repo: &Path) -> R {
+    use syn::visit::Visit;
+    let rel = "src/mir/lower/match_expr.rs";
+    let file = find::parse(repo, rel)?;
+    let f = find::func(&file, "r#match", Some("Lowerer")).or_else(|_| find::func(&file, "match", Some("Lowerer")))?;
+    let hooked = |attrs: &[syn::Attribute]| attrs.iter().any(|a| norm(a).contains("verif-hooks"));
+    let mut steps: Vec<&str> = vec![];
+    for st in &f.block.stmts {
+        let syn::Stmt::Local(l) = st else { continue };
+        if hooked(&l.attrs) {
+            continue;
+        }
+        let name = match &l.pat {
+            syn::Pat::Ident(i) => i.ident.to_string(),
+            syn::Pat::Type(t) => norm(&t.pat),
+            other => norm(other),
+        };
+        if name != "examinee" {
+            continue;
+        }
+        let Some(init) = &l.init else { return Err(format!("{rel}::match: `let examinee;` without initialiser")) };
+        if init.diverge.is_some() {
+            return Err(format!("{rel}::match: `let examinee = … else` is outside the subset"));
+        }
+        let e = norm(&init.expr);
+        if e.starts_with("self.expr(") && e.ends_with(')') && e.matches("self.").count() == 1 {
+            steps.push(".evalExpr");
+        } else if e.starts_with("self.assign_to_var(examinee,") && e.ends_with(')') && e.matches("self.").count() == 1 {
+            steps.push(".assignToVar");
+        } else {
+            return Err(format!(
+                "{rel}::match: `let examinee = {e};` is outside the subset (self.expr(..) / self.assign_to_var(examinee, ..)): how the examinee of a match is held must be re-modelled"
+            ));
+        }
+    }
+    if steps.is_empty() {
+        return Err(format!("{rel}::match: no `let examinee = …;` statement found"));
+    }
+    // the uses of `examinee`
+    struct Uses {
+        discr: Vec<String>,
+        cases: Vec<String>,
+        clones: Vec<String>,
+    }
+    impl<'ast> Visit<'ast> for Uses {
+        fn visit_expr_call(&mut self, c: &'ast syn::ExprCall) {
+            if norm(&c.func) == "Value::Discriminant" {
+                self.discr.push(c.args.iter().map(norm).collect::<Vec<_>>().join(","));
+            }
+            if norm(&c.func) == "Value::Clone" {
+                self.clones.push(c.args.iter().map(norm).collect::<Vec<_>>().join(","));
+            }
+            syn::visit::visit_expr_call(self, c);
+        }
+        fn visit_expr_method_call(&mut self, c: &'ast syn::ExprMethodCall) {
+            if c.method == "match_case" {
+                self.cases.push(c.args.first().map(norm).unwrap_or_default());
+            }
+            syn::visit::visit_expr_method_call(self, c);
+        }
+    }
+    let mut u = Uses { discr: vec![], cases: vec![], clones: vec![] };
+    u.visit_block(&f.block);
+    if u.discr.len() != 1 || !(u.discr[0] == "examinee.clone()" || u.discr[0] == "examinee") {
+        return Err(format!("{rel}::match: expected one `Value::Discriminant(examinee…)`, found {:?}", u.discr));
+    }
+    if u.cases.is_empty() || u.cases.iter().any(|a| !(a == "examinee.clone()" || a == "examinee")) {
+        return Err(format!("{rel}::match: every `self.match_case(…)` must receive `examinee` first, found {:?}", u.cases));
+    }
+    let mc = find::func(&file, "match_case", Some("Lowerer"))?;
+    let first = mc.sig.inputs.iter().filter_map(|a| match a {
+        syn::FnArg::Typed(t) => Some(norm(&t.pat)),
+        _ => None,
+    }).next().unwrap_or_default();
+    if first != "examinee" {
+        return Err(format!("{rel}::match_case: first parameter is `{first}`, expected `examinee`"));
+    }
+    let mut u2 = Uses { discr: vec![], cases: vec![], clones: vec![] };
+    u2.visit_block(&mc.block);
+    let binding_reads: Vec<&String> = u2.clones.iter().filter(|c| c.contains("VariantField")).collect();
+    if binding_reads.len() != 1 || !binding_reads[0].starts_with("Place{var:examinee.clone(),") {
+        return Err(format!(
+            "{rel}::match_case: expected one `Value::Clone(Place {{ var: examinee.clone(), … VariantField … }})`, found {:?}",
+            u2.clones
+        ));
+    }
+    let mut s = String::from(
+        "/- GENERATED by /verif/extract from src/mir/lower/match_expr.rs — do not edit. -/\nimport RotoV.Model.ValueMatch\nnamespace RotoV.Gen.ValueMatchGen\nopen RotoV.ValueMatch\n\n",
+    );
+    s += &format!(
+        "/-- the `let examinee = …;` statements of `Lowerer::match`, in order; the discriminant and the\n    bindings of every candidate arm are read from the variable they leave -/\ndef examineeSteps : List ExStep := [{}]\n\n",
+        steps.join(", ")
+    );
+    s += "end RotoV.Gen.ValueMatchGen\n";
+    Ok(s)
 }
